@@ -129,9 +129,27 @@ func (gowFamily) Exec(c *hc.Case) {
 				mu.Unlock()
 			}
 		}
-		cir = circuit.NewCircuitFromConfig("gow", cfg)
+		if p.Lost && p.K%3 == 0 {
+			// GoLostErrors configured in TWO layers (the circuit's own config and a manager default): the circuit's own
+			// wins, so an outcome is still handed over once -- to it
+			m := &circuit.Manager{DefaultCircuitProperties: []circuit.CommandPropertiesConstructor{func(string) circuit.Config {
+				var d circuit.Config
+				d.General.GoLostErrors = func(err error, pv interface{}) {
+					mu.Lock()
+					sink = append(sink, outcomeName(err, pv))
+					mu.Unlock()
+				}
+				return d
+			}}}
+			cir = m.MustCreateCircuit("gow", cfg)
+		} else {
+			cir = circuit.NewCircuitFromConfig("gow", cfg)
+		}
 	}
-	ctx, cancel := context.WithCancel(context.Background())
+	// the caller's context carries a cancellation CAUSE: what Go reports is still the context's error
+	ctx0, cancelCause := context.WithCancelCause(context.Background())
+	cancel := func() { cancelCause(errors.New("the client went away")) }
+	var ctx context.Context = ctx0
 	defer cancel()
 	if p.CtxEnd == "timeout" {
 		// a caller that has its own, much later deadline: the execution timeout must still end the call
@@ -200,13 +218,28 @@ func (gowFamily) Exec(c *hc.Case) {
 		case <-time.After(3 * time.Second):
 			prompt = false
 			close(release)
-			got = <-done
+			select {
+			case got = <-done:
+			case <-time.After(5 * time.Second):
+				c.Viol = append(c.Viol, hc.Violation{Clause: "C18: Go returns as soon as the run function finishes, or as soon as the caller's context or the execution timeout ends", Detail: "Go had not returned 5 s after its function was released", AtOp: 0})
+				c.Outs = []string{"(CROutcome (OutErr 97), [])"}
+				c.Tags = []string{"order:" + p.Order, "hung"}
+				return
+			}
 		}
 		if prompt {
 			close(release)
 		}
 	default:
-		got = <-done
+		select {
+		case got = <-done:
+		case <-time.After(5 * time.Second):
+			prompt = false // Go has not returned although its function finished (or its context ended) at once
+			c.Viol = append(c.Viol, hc.Violation{Clause: "C18: Go returns as soon as the run function finishes, or as soon as the caller's context or the execution timeout ends", Detail: "Go had not returned 5 s after its function finished", AtOp: 0})
+			c.Outs = []string{"(CROutcome (OutErr 97), [])"}
+			c.Tags = []string{"order:" + p.Order, "hung"}
+			return
+		}
 	}
 	// let the helpers finish
 	wantSink := 0
@@ -244,26 +277,29 @@ func (gowFamily) Exec(c *hc.Case) {
 		c.Viol = append(c.Viol, hc.Violation{Clause: "C10: a panic raised by the run function or the fallback reaches the caller of Go with the same panic value (the call's context has not ended)", Detail: fmt.Sprintf("Go returned %s", result), AtOp: 0})
 	}
 	if !prompt {
-		c.Viol = append(c.Viol, hc.Violation{Clause: "Go returns as soon as the caller's context or the execution timeout ends, even if the run function never returns", Detail: "Go was still blocked 3s after the context ended", AtOp: 0})
+		c.Viol = append(c.Viol, hc.Violation{Clause: "C18: Go returns as soon as the caller's context or the execution timeout ends, even if the run function never returns", Detail: "Go was still blocked 3s after the context ended", AtOp: 0})
 	}
 	surf := len(sinkNow)
 	if !ctxErr {
 		surf++
 	}
 	if surf > 1 {
-		c.Viol = append(c.Viol, hc.Violation{Clause: "the eventual outcome of every started function is surfaced at most once", Detail: fmt.Sprintf("result %s, GoLostErrors %v", result, sinkNow), AtOp: 0})
+		c.Viol = append(c.Viol, hc.Violation{Clause: "C18: the eventual outcome of every started function is surfaced at most once", Detail: fmt.Sprintf("result %s, GoLostErrors %v", result, sinkNow), AtOp: 0})
 	}
 	if p.Lost && surf != 1 {
-		c.Viol = append(c.Viol, hc.Violation{Clause: "the eventual outcome is surfaced exactly once whenever GoLostErrors is configured", Detail: fmt.Sprintf("result %s, GoLostErrors %v", result, sinkNow), AtOp: 0})
+		c.Viol = append(c.Viol, hc.Violation{Clause: "C18: the eventual outcome is surfaced exactly once whenever GoLostErrors is configured", Detail: fmt.Sprintf("result %s, GoLostErrors %v", result, sinkNow), AtOp: 0})
 	}
 	if p.Order == "ctx_first" && p.CtxEnd == "timeout" && got.err != context.DeadlineExceeded {
-		c.Viol = append(c.Viol, hc.Violation{Clause: "when the execution timeout ends first the run step ends with that context's error", Detail: fmt.Sprintf("got %v", got.err), AtOp: 0})
+		c.Viol = append(c.Viol, hc.Violation{Clause: "C18: when the execution timeout ends first the run step ends with that context's error", Detail: fmt.Sprintf("got %v", got.err), AtOp: 0})
 	}
 	if p.Via == "fallback" && fbGot != gowRunFails {
-		c.Viol = append(c.Viol, hc.Violation{Clause: "the normal fallback rules apply", Detail: fmt.Sprintf("fallback received %v", fbGot), AtOp: 0})
+		c.Viol = append(c.Viol, hc.Violation{Clause: "C18: the normal fallback rules apply", Detail: fmt.Sprintf("fallback received %v", fbGot), AtOp: 0})
 	}
 	if n := runtime.NumGoroutine(); n > baseline {
-		c.Viol = append(c.Viol, hc.Violation{Clause: "no helper goroutine outlives the function it wraps", Detail: fmt.Sprintf("%d goroutines, baseline %d", n, baseline), AtOp: 0})
+		c.Viol = append(c.Viol, hc.Violation{Clause: "C18: no helper goroutine outlives the function it wraps", Detail: fmt.Sprintf("%d goroutines, baseline %d", n, baseline), AtOp: 0})
+	}
+	if p.Circuit == "normal" && p.K%4 == 1 {
+		staleResultProbe(c)
 	}
 	c.Tags = []string{"order:" + p.Order, "outcome:" + p.Outcome, "via:" + p.Via, "circuit:" + p.Circuit, fmt.Sprintf("lost:%v", p.Lost), "ctx_end:" + p.CtxEnd}
 	if ctxErr {
@@ -283,7 +319,11 @@ func (gowFamily) Emit(w io.Writer, f *hc.File) {
 		if i == len(f.Cases)-1 {
 			sep = ""
 		}
-		fmt.Fprintf(w, " (%d%%nat, %s, %s, %s, %s)%s\n", c.ID, ord, out, hc.B(p.Lost), c.Outs[0], sep)
+		obs := "(CROutcome (OutErr 96), [])" // a case abandoned by the watchdog: matches nothing the model allows
+		if len(c.Outs) > 0 {
+			obs = c.Outs[0]
+		}
+		fmt.Fprintf(w, " (%d%%nat, %s, %s, %s, %s)%s\n", c.ID, ord, out, hc.B(p.Lost), obs, sep)
 	}
 	fmt.Fprintln(w, "].")
 	fmt.Fprintln(w, "Definition result := Eval vm_compute in gow_mismatches cases.")
@@ -296,4 +336,35 @@ type slowDoneCtx struct{ context.Context }
 func (s slowDoneCtx) Done() <-chan struct{} {
 	time.Sleep(2 * time.Millisecond)
 	return s.Context.Done()
+}
+
+// staleResultProbe: a run function that overstays the execution timeout and finishes LATE, while the fallback of the
+// same call is still working (no GoLostErrors): what Go returns is the fallback's own result, not the abandoned
+// function's late one.
+func staleResultProbe(c *hc.Case) {
+	var cfg circuit.Config
+	cfg.Execution.Timeout = 20 * time.Millisecond
+	cir := circuit.NewCircuitFromConfig("gow-late", cfg)
+	late, own := errors.New("late result of the abandoned run"), errors.New("the fallback's own result")
+	release := make(chan struct{})
+	done := make(chan error, 1)
+	go func() {
+		done <- cir.Go(context.Background(), func(context.Context) error {
+			<-release
+			return late
+		}, func(context.Context, error) error {
+			close(release) // the abandoned run function finishes now, while this fallback is still at work
+			time.Sleep(30 * time.Millisecond)
+			return own
+		})
+	}()
+	select {
+	case got := <-done:
+		if got != own {
+			c.Viol = append(c.Viol, hc.Violation{Clause: "C06: when the run step fails and a fallback is supplied and enabled, Execute returns exactly the fallback's result", Detail: fmt.Sprintf("Go returned %v while its fallback was returning %v (the run function had timed out and finished late)", got, own), AtOp: 0})
+			c.Viol = append(c.Viol, hc.Violation{Clause: "C18: the eventual outcome of every started run function or fallback is surfaced at most once, as Go's own result", Detail: fmt.Sprintf("Go returned %v, the late result of the abandoned run function, instead of its fallback's %v", got, own), AtOp: 0})
+		}
+	case <-time.After(3 * time.Second):
+		c.Viol = append(c.Viol, hc.Violation{Clause: "C18: Go returns as soon as the run function finishes, or as soon as the caller's context or the execution timeout ends", Detail: "Go with a timed-out run function and a 30 ms fallback had not returned after 3 s", AtOp: 0})
+	}
 }
